@@ -46,6 +46,9 @@ def step(draw, conts):
         # keep most accesses in range so that programs get past the first few steps
         if draw(st.integers(0, 9)) < 6:
             i = i % c["n"]
+        elif draw(st.integers(0, 4)) == 0:
+            # indices with the top bit set: a wrapped `pos - 1`, 2^63, 2^63 + small
+            i = draw(st.sampled_from([(1 << 64) - 1, (1 << 64) - 2, (1 << 64) - c["n"], 1 << 63, (1 << 63) + c["n"] - 1, (1 << 63) + 1]))
         s = {"k": "idx", "c": c["id"], "write": draw(st.booleans()), "i": i, "v": draw(st.integers(0, ELEMS[c["elem"]]))}
         if c["kind"] == "nested":
             j = draw(st.integers(0, c["m"] + 2))
@@ -128,6 +131,14 @@ def place(c, idx_src, j_src=None):
     return f"m{i}[{idx_src}][{j_src}]"
 
 
+def index_src(i):
+    if i < (1 << 62):
+        return f"at({i})"
+    if i >= (1 << 64) - 64:
+        return f"(at(0) - {(1 << 64) - i})"
+    return f"((at(1) << 63) + {i - (1 << 63)})"
+
+
 def guards_src(c):
     i = c["id"]
     if c["kind"] in ("struct", "structptr"):
@@ -154,7 +165,7 @@ def build(case):
             out += f"m{n}\n"
         if s["k"] == "idx":
             c = conts[s["c"]]
-            pl = place(c, f"at({s['i']})", f"at({s.get('j', 0)})")
+            pl = place(c, index_src(s["i"]), f"at({s.get('j', 0)})")
             oob = s["i"] >= c["n"] or (c["kind"] == "nested" and s["j"] >= c["m"])
             what = "slice" if c["kind"] == "slice" else "array"
             if s["write"]:
@@ -241,7 +252,7 @@ def nontrivial(case):
     for s in case["steps"]:
         if s["k"] == "idx":
             n = conts[s["c"]]["n"]
-            if s["i"] in (n - 1, n, n + 1):
+            if s["i"] in (n - 1, n, n + 1) or s["i"] >= (1 << 63):
                 return True
         elif s["k"] == "unwrap":
             return True
@@ -333,7 +344,7 @@ def replay_payload(payload, scratch):
 RULE = ("1-3 containers (array, array inside a guarded struct (also through a pointer), slice, pointer / pointer-to-pointer to array, nested array; lengths 1-8, "
         "element types u8/u16/i32/u64) and 1-10 steps: indexed read or write with a runtime index in [0, len+4] (biased to len-1, len, len+1) or #unwrap of an "
         "enum / optional / nullable pointer / error union as a matching or non-matching variant; plus a fixed list of literal-index programs. "
-        "Non-trivial = an index in {len-1, len, len+1} or an unwrap; distinct by program text.")
+        "Out-of-range indices also include values with the top bit set (2^64-1, 2^64-len, 2^63, 2^63+len-1: a wrapped `pos - 1`). Non-trivial = an index in {len-1, len, len+1}, an index >= 2^63, or an unwrap; distinct by program text.")
 
 
 def run(ctx):
